@@ -251,7 +251,7 @@ def gen_str_kernels(repo, out, report):
     try:
         text, fps = TS.translate_all(src)
         body = "/- GENERATED by harness/gen.py (translate_str.py) from /repo's working tree — do not edit. -/\n"
-        body += "import DateutilVerif.Model.StrPy\nimport DateutilVerif.Model.RRuleStr\n\nset_option linter.unusedVariables false\n\nnamespace Gen\n\n" + text + "\nend Gen\n"
+        body += "import DateutilVerif.Model.StrPy\nimport DateutilVerif.Model.RRuleStr\nimport DateutilVerif.Generated.Tables\n\nset_option linter.unusedVariables false\n\nnamespace Gen\n\n" + text + "\nend Gen\n"
         changed = write_if_changed(path, body)
         report["kernels"]["RRuleStrKernels"] = {"ok": True, "fingerprints": fps, "changed": changed}
     except (T.Untranslatable, SyntaxError, OSError) as ex:
